@@ -3,6 +3,7 @@ import NutsModel.C17.TokenPolicy
 import NutsModel.C17.Framing
 import NutsModel.C17.Fold
 import NutsModel.C17.Kid
+import NutsModel.C17.LdBytes
 import NutsModel.Facts.C17
 open Lean Nuts.Drv Nuts.C17 Nuts
 
@@ -128,6 +129,12 @@ def step (st : Unit) (j : Json) : Unit × List String :=
       let L : LdEnv := { keyAlg := fun _ => if jStr v "keyalg" == "" then none else some (jStr v "keyalg"),
                          verifiesDetached := fun _ _ => jBool v "verified",
                          fits := fun _ _ => jBool v "fits" }
+      if jHas v "jwshex" then
+        -- parts, signature decoding and the derived algorithm are COMPUTED by the model from the jws bytes and the key kind
+        let kind : Framing.KeyKind := match jStr v "keykind" with
+          | "nil" => .nil | "rsa" => .rsa | "ecdsa" => .ecdsa (jNat v "keybits") | "ed25519" => .ed25519 | _ => .other
+        LdBytes.ldProofVerifyBytes Facts.C17.ecAlgBitsTable Facts.C17.sigAlgRsa Facts.C17.sigAlgEd kind L "K" (jBool v "canon") (hexBytes (jStr v "jwshex").toList)
+      else
       ldProofVerify L "K" (jBool v "canon") (jNat v "parts") (jBool v "sigdecodes")
     | "vcld" =>
       let E : Env := { resolve := fun _ => if jBool v "keyfound" then some "K" else none, embeddedKey := fun _ => none,
